@@ -73,6 +73,7 @@ def state_guard(chk, prog):
     crates = {"C08": ("flipdot_core", "flipdot_testing", "flipdot"), "C09": ("flipdot_core", "flipdot"), "C10": ("flipdot_core", "flipdot"), "C11": ("flipdot_core", "flipdot"),
               "C12": ("flipdot_core", "flipdot_testing"), "C13": ("flipdot_core", "flipdot_testing"), "C14": ("flipdot_core", "flipdot_testing"),
               "C16": ("flipdot_core", "flipdot_serial"), "C17": ("flipdot_core", "flipdot_serial", "flipdot_testing", "flipdot"), "C18": ("flipdot_core", "flipdot_serial"),
+              "C19": ("flipdot_core", "flipdot_testing"),
               "C20": ("flipdot_core", "flipdot_serial", "flipdot_testing")}.get(chk.pid, ("flipdot_core",))
     import re
     cell = re.compile(r"\b(Cell|RefCell|UnsafeCell|OnceCell|OnceLock|Once|Mutex|RwLock|Atomic\w+|LocalKey|Storage|Condvar)\b")
@@ -92,6 +93,16 @@ def state_guard(chk, prog):
             chk.unproven("G1.state", "static:%s" % s_["path"], "process-global or thread-local mutable state (static %s: %s): behaviour may depend on earlier calls, which the per-call analysis does not model"
                          % (s_["path"].split("::")[-1], ty[:80]), "%s:%s" % (w.get("file"), w.get("line")))
     chk.ob("G1.state", "statics of the crates this property depends on hold no state between calls (%d static(s): immutable or lazily initialised constants)" % n, True, key="G1:scan")
+    # G2: the evaluator follows safe Rust's semantics only (no raw-pointer writes, transmutes, unchecked indexing): unsafe code in the
+    # crates the verdict depends on is outside what it models
+    nu = 0
+    for c, u in prog.unsafe_sites:
+        if c not in crates:
+            continue
+        nu += 1
+        chk.unproven("G2.unsafe", "unsafe:%s" % u.get("file"), "unsafe code in a crate this property depends on (%s): the analysis models safe Rust only" % u.get("file"),
+                     "%s:%s" % (u.get("file"), u.get("line")))
+    chk.ob("G2.unsafe", "no unsafe code in the crates this property depends on", nu == 0, key="G2:scan")
 
 
 _INCLUDE_MEMO = {}
